@@ -133,3 +133,5 @@ Print Assumptions C02_reject_only_zero.
 Print Assumptions C02_accept_partial.
 Print Assumptions C02_old_table_refuted.
 Print Assumptions C02_const_cond_refuted.
+Print Assumptions C02_fold_7_mod_2.
+Print Assumptions C02_fold_prog_nontrivial.
